@@ -67,6 +67,16 @@ def execute(case):
             # registered as the teardown callback of a resource published under two types (still one registration)
             marker = type(f"Res{c}", (), {})
             add_resource(marker(), f"res{c}", [marker, object], teardown_callback=callback)
+        elif which == "prepare" and (c + case.get("seed", 0)) % 3 == 2:
+            # a plain function that returns an awaitable which is not a coroutine ("the callback may return an awaitable"): the
+            # callback has run when that awaitable has been awaited
+            class Handle:
+                def __await__(self):
+                    callback()
+                    return
+                    yield
+
+            add_teardown_callback(lambda: Handle())
         else:
             add_teardown_callback(callback)
         log(ev="reg", id=ident, late=False)
